@@ -34,8 +34,10 @@ TEXTS["C04"] = {
             "record only along the FSM and refuses receipts in final states (C04_report_moves_along_fsm, C04_report_refused_when_final), GetStatus returns the stored status. "
             "History level (Proofs/ExecRec.lean: only Begin writes a fresh record, only Report steps an existing one, nothing else touches tx-<id>): over ANY sequence of handled IBTPs the status of a record of an index-checked pair stays present and "
             "moves only along steps of the state machine (C04_history_status_path), hence SUCCESS / FAILURE / ROLLBACK never change again (C04_history_final_stays); the counter hypothesis of both holds for every record the contract creates "
-            "(C04_created_record_is_bounded). The executor's direct status writes at timeout are outside that history (C06's theorems cover them per block); the monitor on the real node (protocol automaton written from the property text) and "
-            "the model correspondence decide whole block histories including timeouts.",
+            "(C04_created_record_is_bounded). Block level (through applyTx with its fee step, transfers, contract calls, the timeout bookkeeping and the timeout step): a final record stays as it is over one block and over every history of blocks "
+            "(C04_tx_final_stays, C04_block_final_stays, C04_block_history_final_stays) under the hypothesis that the record is not on the timeout list of a height whose timeout step runs (and nobody calls the unguarded "
+            "DeleteInterchain); that hypothesis is what setTimeoutList's bookkeeping has to guarantee, it is not proved, the model driver evaluates it on every generated block (evidence tag model:listedfinal=0/1) and the "
+            "monitor on the real node (protocol automaton written from the property text) plus the model correspondence decide whole block histories including timeouts.",
     "note": TB + " Extractor go/extract (go/packages + go/ast) is trusted to copy the literal table.",
     "technique": "Lean 4 table theorems (decide over the extracted FSM, lifted by lemma) + model correspondence + protocol monitor",
 }
